@@ -132,7 +132,7 @@ def scenario(B, case):
     if what == "sectors":
         reset_library_state()
         D = case["d"]
-        eta = B.real("eta")
+        eta = B.angle("eta", 1)  # (an angle, so that cos / sin of it are expressible as well as polynomials in it)
         U = B.np(CompositeOperationType.NonPolarizingBeamSplitter.compute_operator([D, D], eta=eta))
         bad = []
         for i in range(D * D):
@@ -147,7 +147,7 @@ def scenario(B, case):
 
     W = World(B, case["world"])
     a, b = [W.sub(n) for n in case["operands"]]
-    eta = B.real("eta")
+    eta = B.angle("eta", 1)  # (an angle, so that cos / sin of it are expressible as well as polynomials in it)
     op = Operation(CompositeOperationType.NonPolarizingBeamSplitter, eta=eta)
     if case.get("reuse"):
         try:
